@@ -214,3 +214,130 @@ func instances(h string, consts []binder, depth int) (inst []string, hasQ bool) 
 	}
 	return nil, false
 }
+
+// ufApps collects closed applications of uninterpreted spec functions in t
+// (instantiation candidates), with their result sorts.
+func (u *unit) ufApps(t string, max int) []binder {
+	var out []binder
+	seen := map[string]bool{}
+	var walk func(x string)
+	walk = func(x string) {
+		if len(out) >= max {
+			return
+		}
+		p := splitSexp(x)
+		if p == nil {
+			return
+		}
+		if strings.HasPrefix(p[0], "|uf_") && !strings.Contains(x, "!b") && !strings.Contains(x, "!c") {
+			if d, ok := u.decls[p[0]]; ok && !seen[x] {
+				// (declare-fun |uf_x| (args) ret)
+				if i := strings.LastIndex(d, ") "); i >= 0 {
+					seen[x] = true
+					out = append(out, binder{x, strings.TrimSuffix(d[i+2:], ")")})
+				}
+			}
+		}
+		if p[0] == "forall" || p[0] == "exists" {
+			return
+		}
+		for _, a := range p[1:] {
+			walk(a)
+		}
+	}
+	walk(t)
+	return out
+}
+
+func dedupBinders(bs []binder, maxPerSort int) []binder {
+	seen := map[string]bool{}
+	cnt := map[string]int{}
+	var out []binder
+	for _, b := range bs {
+		if seen[b.name] || cnt[b.sort] >= maxPerSort {
+			continue
+		}
+		seen[b.name] = true
+		cnt[b.sort]++
+		out = append(out, b)
+	}
+	return out
+}
+
+func flattenAnd(t string, depth int) []string {
+	if depth > 6 {
+		return []string{t}
+	}
+	p := splitSexp(t)
+	if p == nil || p[0] != "and" {
+		return []string{t}
+	}
+	var out []string
+	for _, a := range p[1:] {
+		out = append(out, flattenAnd(a, depth+1)...)
+	}
+	return out
+}
+
+// collectUfApps records every closed application of a spec function that
+// occurs outside quantifier bodies
+func collectUfApps(t string, set map[string]bool) {
+	if !strings.Contains(t, "|uf_") {
+		return
+	}
+	p := splitSexp(t)
+	if p == nil {
+		return
+	}
+	if p[0] == "forall" || p[0] == "exists" {
+		return
+	}
+	if strings.HasPrefix(p[0], "|uf_") {
+		set[t] = true
+	}
+	for _, a := range p[1:] {
+		collectUfApps(a, set)
+	}
+}
+
+func relevantInstance(g string, known map[string]bool) bool {
+	mine := map[string]bool{}
+	collectUfApps(g, mine)
+	for a := range mine {
+		if !known[a] {
+			return false
+		}
+	}
+	return true
+}
+
+// memIndexTerms: the address terms X of (select |M@k| X) occurring in t,
+// with a trailing constant offset stripped as well
+func memIndexTerms(t string, max int) []string {
+	var out []string
+	seen := map[string]bool{}
+	var walk func(x string)
+	walk = func(x string) {
+		if len(out) >= max || !strings.Contains(x, "|M@") {
+			return
+		}
+		p := splitSexp(x)
+		if p == nil {
+			return
+		}
+		if p[0] == "forall" || p[0] == "exists" {
+			return
+		}
+		if p[0] == "select" && len(p) == 3 && strings.HasPrefix(p[1], "|M@") {
+			if !seen[p[2]] && !strings.Contains(p[2], "!b") {
+				seen[p[2]] = true
+				out = append(out, p[2])
+			}
+		}
+		for _, a := range p[1:] {
+			walk(a)
+		}
+	}
+	walk(t)
+	return out
+}
